@@ -611,13 +611,21 @@ def weights_mechanism(chk):
             file=U.INTERP, func=QF)
     # ---- the stored integrals are not written through (on either path, helpers included)
     allm = []
+    allu = []
     for per, body in bodies.items():
         shell = ast.FunctionDef(name="get_quadrature_coefficients", args=fn.args, body=body or [ast.Pass()], decorator_list=[], lineno=fn.lineno)
-        for node, d in lints.shared_state_mutations(shell, lambda s: s.endswith(".integrals") or s.endswith("._integrals")):
+        res_ = lints.shared_state_mutations(shell, lambda s: s.endswith(".integrals") or s.endswith("._integrals"))
+        for node, d in res_:
             if d not in [x[1] for x in allm]:
                 allm.append((node, d))
+        for u in (getattr(res_, "undecided", []) or []):
+            if u[1] not in [x[1] for x in allu]:
+                allu.append(u)
     muts = allm
     verdict_g2 = not muts
+    if not muts and allu:
+        # possible but unestablished writes (view or copy / alias liveness not known to the engine): UNDECIDED, same rule id
+        verdict_g2 = None
     if muts:
         # ASSUMPTION of VIOLATED: `basis.integrals` hands out the array the basis keeps (not a copy made on every access).  Read off the
         # property (or plain attribute) of BSplines; a property that copies, or whose body is not followed, makes the write harmless or
@@ -633,7 +641,9 @@ def weights_mechanism(chk):
         if not hands_out and not all("._integrals" in d for _n, d in muts):
             verdict_g2 = None
     chk.ob("G2-no-shared-mutation", muts[0][0] if muts else fn, "get_quadrature_coefficients vs basis.integrals", verdict_g2,
-           "the stored basis integrals are only read" if not muts else "; ".join(d for _, d in muts) +
+           ("the stored basis integrals are only read" if not allu else
+            "; ".join(f"{u[1]} ({u[2]})" for u in allu[:3]) + " - possible write through the stored basis integrals, not established")
+           if not muts else "; ".join(d for _, d in muts) +
            " - a second request (or another interpolator on the same basis) gets wrong weights", file=U.INTERP, func=QF)
     # ---- the factorisation used here is the one compute_interpolant uses (same attributes)
     found = {}
@@ -861,6 +871,170 @@ class _Small:
         return [int(x) for x in v], "fancy"
 
 
+class _SmallW(_Small):
+    """_Small + reads of the correction vector W (entries counted from the start only) and literal arithmetic in bounds"""
+
+    def __init__(self, body, before, dx_names, val_names, W, state):
+        super().__init__(body, before, dx_names, val_names)
+        self.W, self.state = W, state
+
+    def const_int(self, e):
+        if e is None:
+            return None
+        v = _int_attr(e, {})
+        if v is not None and sp.sympify(v).is_Integer:
+            return int(v)
+        raise Unk(f"bound `{src(e)[:30]}` is not a literal integer")
+
+    def resolve(self, e):
+        if isinstance(e, ast.Name) and e.id == self.W:
+            return e
+        return super().resolve(e)
+
+    def vector(self, e):
+        if isinstance(e, ast.Subscript) and isinstance(e.value, ast.Name) and e.value.id == self.W and isinstance(e.slice, ast.Slice):
+            lo, hi, step = self.const_int(e.slice.lower), self.const_int(e.slice.upper), self.const_int(e.slice.step)
+            fwd = step in (None, 1) and hi is not None and 0 < hi <= 6 and (lo is None or 0 <= lo < hi)
+            bwd = step == -1 and lo is not None and 0 <= lo < 6 and hi is None
+            if not (fwd or bwd):
+                raise Unk(f"part `{src(e)[:30]}` of the correction vector")
+            if any(v != 0 for v in self.state["end"].values()):
+                raise Unk("entries counted from the start are read after entries counted from the end were written")
+            return [self.state["start"].get(k, sp.Integer(0)) for k in list(range(6))[slice(lo, hi, step)]]
+        return super().vector(e)
+
+    def scalar(self, e):
+        if isinstance(e, ast.Subscript) and isinstance(e.value, ast.Name) and e.value.id == self.W and not isinstance(e.slice, ast.Slice):
+            k = self.const_int(e.slice)
+            if k < 0 or any(v != 0 for v in self.state["end"].values()):
+                raise Unk(f"entry `{src(e)[:30]}` of the correction vector")
+            return self.state["start"].get(k, sp.Integer(0))
+        return super().scalar(e)
+
+
+def _correction_vector(cu, flat, whole, dx_names, val_names):
+    """`integrals -= W` with W a zero vector as long as the integrals, filled at literal positions counted from its start / from its end
+    (by statements or by a loop over a literal range, read once per value of the loop index).  The entries counted from the start and
+    those counted from the end are kept apart (they are different entries when there are three cells or more); a plain ASSIGNMENT at
+    one end made after the other end received its values replaces, with one or two cells, what the other end put there.
+    -> (verdict, diagnosis, node) or None when the construction is not of this form"""
+    from .C07 import _Sub, clone as _clone
+    W = whole.value.id
+    table = dict(_space_table(False))
+    for st in flat:
+        if isinstance(st, ast.Assign) and len(st.targets) == 1 and isinstance(st.targets[0], ast.Name):
+            v_ = _int_attr(st.value, table)
+            if v_ is not None:
+                table[st.targets[0].id] = v_
+    allocs = [st for st in flat if isinstance(st, ast.Assign) and len(st.targets) == 1 and isinstance(st.targets[0], ast.Name) and st.targets[0].id == W]
+    if len(allocs) != 1 or not isinstance(allocs[0].value, ast.Call) or not allocs[0].value.args:
+        return None
+    a = allocs[0].value
+    if src(a.func) == "np.zeros_like":
+        if not _is_integrals(a.args[0]):
+            return None
+    elif src(a.func) == "np.zeros":
+        size = _int_attr(a.args[0], table)
+        if size is None or not _same(size, NC + D):
+            return None
+    else:
+        return None
+    state = {"start": {}, "end": {}}
+    overwrite = []
+
+    def store(st, target, value, op, env):
+        rd = _SmallW(cu, allocs[0], dx_names, val_names, W, state)
+        tgt = _Sub(env).visit(_clone(target)) if env else target
+        val = _Sub(env).visit(_clone(value)) if env else value
+        if isinstance(tgt.slice, ast.Slice):
+            pos, _how = rd.indices(tgt)
+        else:
+            pos = [rd.const_int(tgt.slice)]
+        try:
+            vals = [rd.scalar(val)] * len(pos)
+        except Unk:
+            vals = rd.vector(val)
+        if len(vals) != len(pos):
+            raise Unk("lengths")
+        for k, v in zip(pos, vals):
+            side, m, other = ("start", k, "end") if k >= 0 else ("end", -k - 1, "start")
+            if m > 2 and v != 0:
+                raise Unk("position beyond the three boundary functions")
+            if op is None:
+                if v != 0 and any(x != 0 for x in state[other].values()):
+                    overwrite.append(st)
+                state[side][m] = v
+            else:
+                state[side][m] = state[side].get(m, sp.Integer(0)) + (v if isinstance(op, ast.Add) else -v)
+
+    def mentions(st):
+        return any(isinstance(x, ast.Name) and x.id == W for x in ast.walk(st))
+    try:
+        started = False
+        for st in cu:
+            if st is allocs[0]:
+                started = True
+                continue
+            if st is whole:
+                break
+            if not mentions(st):
+                if any(_is_integrals(x) for x in ast.walk(st)) and isinstance(st, (ast.For, ast.While, ast.If, ast.AugAssign)):
+                    return None
+                continue
+            if not started:
+                return None
+            if isinstance(st, ast.For):
+                if not (isinstance(st.iter, ast.Call) and src(st.iter.func) == "range" and len(st.iter.args) == 1 and isinstance(st.target, ast.Name)
+                        and not st.orelse):
+                    return None
+                cnt = _int_attr(st.iter.args[0], {})
+                if cnt is None or not sp.sympify(cnt).is_Integer or not (0 < int(cnt) <= 6):
+                    return None
+                for k in range(int(cnt)):
+                    env = {st.target.id: ast.Constant(value=k)}
+                    for b in st.body:
+                        if isinstance(b, ast.Assign) and len(b.targets) == 1 and isinstance(b.targets[0], ast.Name) and b.targets[0].id != W:
+                            env[b.targets[0].id] = _Sub(env).visit(_clone(b.value))
+                        elif isinstance(b, ast.Assign) and len(b.targets) == 1 and isinstance(b.targets[0], ast.Subscript) and src(b.targets[0].value) == W:
+                            store(b, b.targets[0], b.value, None, env)
+                        elif isinstance(b, ast.AugAssign) and isinstance(b.op, (ast.Add, ast.Sub)) and isinstance(b.target, ast.Subscript) and src(b.target.value) == W:
+                            store(b, b.target, b.value, b.op, env)
+                        else:
+                            return None
+            elif isinstance(st, ast.Assign) and len(st.targets) == 1 and isinstance(st.targets[0], ast.Subscript) and src(st.targets[0].value) == W:
+                store(st, st.targets[0], st.value, None, {})
+            elif isinstance(st, ast.AugAssign) and isinstance(st.op, (ast.Add, ast.Sub)) and isinstance(st.target, ast.Subscript) and src(st.target.value) == W:
+                store(st, st.target, st.value, st.op, {})
+            else:
+                return None
+    except Unk:
+        return None, None, whole
+    if overwrite:
+        # ASSUMPTION of VIOLATED: spaces with one or two cells (4 or 5 integrals) take these statements - no branch on the number of cells
+        small_case = any(isinstance(x, ast.If) and any((isinstance(y, ast.Attribute) and y.attr in ("ncells", "_ncells", "nbasis", "_nbasis")) or
+                                                       (isinstance(y, ast.Name) and (y.id == "n" or "ncell" in y.id.lower()))
+                                                       for y in ast.walk(x.test)) for x in flat)
+        if small_case:
+            return None, None, overwrite[0]
+        o = overwrite[0]
+        return False, (f"`{src(o)[:70]}` ASSIGNS the correction of one end into `{W}` after the other end received its own: with one or two cells "
+                       "(4 or 5 integrals) entries counted from the end ARE entries counted from the start, and the assignment replaces the part "
+                       "already there instead of adding to it - a function cut by both boundaries loses only one of its two outside parts, "
+                       "the stored integrals (hence the quadrature weights) are wrong"), o
+    for which in ("start", "end"):
+        nz = {m: v for m, v in state[which].items() if v != 0}
+        if set(nz) != {0, 1, 2}:
+            if not nz:
+                return False, (f"nothing is subtracted from the three functions at the {which} of the domain: they keep the full integral dx although "
+                               "part of their support lies outside the domain"), whole
+            return False, f"the functions {sorted(nz)} from the {which} of the domain are reduced: the functions cut by a boundary are 0, 1, 2", whole
+        for m, v in nz.items():
+            if sp.expand(v - _outside(m)) != 0:
+                return False, (f"`{src(whole)[:70]}`: function {m} from the {which} loses {sp.factor(v)}; the mass outside the domain is "
+                               f"{_outside(m)} (v_k = k-th basis value at the test point)"), whole
+    return True, None, whole
+
+
 def boundary_reduction(cu, dx_names, val_names):
     """-> (verdict, diagnosis, node).  Every function m = 0, 1, 2 counted from the start of the domain and every function m counted from its end
     must lose dx x sum(values[:3 - m]), by a subtraction that is applied once per END (a function that reaches both ends loses both parts)."""
@@ -879,6 +1053,13 @@ def boundary_reduction(cu, dx_names, val_names):
                 ((isinstance(st, ast.AugAssign) and isinstance(st.op, ast.Sub) and is_int_sub(st.target)) or
                  (isinstance(st, ast.Expr) and isinstance(st.value, ast.Call) and src(st.value.func) in ("np.subtract.at", "numpy.subtract.at")
                   and len(st.value.args) == 3 and _is_integrals(st.value.args[0])))]
+    whole = [st for st in flat if isinstance(st, ast.AugAssign) and isinstance(st.op, ast.Sub) and isinstance(st.value, ast.Name) and
+             (_is_integrals(st.target) or (is_int_sub(st.target) and isinstance(st.target.slice, ast.Slice) and st.target.slice.lower is None
+                                           and st.target.slice.upper is None and st.target.slice.step is None))]
+    if not loops and len(whole) == 1 and all(x is whole[0] for x in vec_subs):
+        r_ = _correction_vector(cu, flat, whole[0], dx_names, val_names)
+        if r_ is not None:
+            return r_
     if loops and vec_subs:
         return None, None, loops[0]
     ends = {"start": [], "end": []}
